@@ -170,7 +170,69 @@ pub struct Hist {
 const CHUNK: u64 = 1 << 17;
 
 pub fn histogram(s: &dyn Sampler, edges: &[f64], n: u64, seed: u64) -> Hist {
-    histogram_with(&|rng: &mut BaseRng, out: &mut [f64]| s.fill(rng, out), edges, n, seed)
+    // one clone of the distribution per worker: the library's types are only required to be Send + Clone
+    let workers = rayon::current_num_threads().max(1) * 4;
+    let chunks = (n + CHUNK - 1) / CHUNK;
+    let clones: Vec<(u64, Box<dyn Sampler>)> = (0..(workers as u64).min(chunks.max(1))).map(|w| (w, s.clone_box())).collect();
+    let nw = clones.len() as u64;
+    let k = edges.len();
+    let empty = || Hist { counts: vec![0; k + 1], nan: 0, n: 0, min: f64::INFINITY, max: f64::NEG_INFINITY };
+    clones
+        .into_par_iter()
+        .map(|(w, d)| {
+            let mut acc = empty();
+            let mut c = w;
+            while c < chunks {
+                let h = histogram_chunk(&|rng: &mut BaseRng, out: &mut [f64]| d.fill(rng, out), edges, n, seed, c, chunks);
+                merge_hist(&mut acc, &h);
+                c += nw;
+            }
+            acc
+        })
+        .reduce(empty, |mut a, b| {
+            merge_hist(&mut a, &b);
+            a
+        })
+}
+
+fn merge_hist(a: &mut Hist, b: &Hist) {
+    for (x, y) in a.counts.iter_mut().zip(b.counts.iter()) {
+        *x += *y;
+    }
+    a.nan += b.nan;
+    a.n += b.n;
+    a.min = a.min.min(b.min);
+    a.max = a.max.max(b.max);
+}
+
+/// one chunk (index c of `chunks`): a pure function of (seed, c)
+fn histogram_chunk(fill: &dyn Fn(&mut BaseRng, &mut [f64]), edges: &[f64], n: u64, seed: u64, c: u64, chunks: u64) -> Hist {
+    let k = edges.len();
+    let m = if c == chunks - 1 { n - c * CHUNK } else { CHUNK };
+    let mut rng = BaseRng::from_env(hseed(&[seed, c, 0x5157]));
+    let mut h = Hist { counts: vec![0; k + 1], nan: 0, n: m, min: f64::INFINITY, max: f64::NEG_INFINITY };
+    let mut buf = vec![0.0f64; 4096];
+    let mut left = m as usize;
+    while left > 0 {
+        let b = left.min(4096);
+        fill(&mut rng, &mut buf[..b]);
+        for &x in &buf[..b] {
+            if x.is_nan() {
+                h.nan += 1;
+                continue;
+            }
+            if x < h.min {
+                h.min = x;
+            }
+            if x > h.max {
+                h.max = x;
+            }
+            let i = edges.partition_point(|&e| e < x);
+            h.counts[i] += 1;
+        }
+        left -= b;
+    }
+    h
 }
 
 /// same, for any bulk sampling closure (used by the selftest's synthetic samplers)
@@ -465,9 +527,23 @@ pub struct LawOutcome {
     pub ref_note: String,
 }
 
+/// where the samples come from: a library distribution (cloned per worker) or a harness closure (selftest)
+pub enum Src<'a> {
+    Dyn(&'a dyn Sampler),
+    Fn(&'a (dyn Fn(&mut BaseRng, &mut [f64]) + Sync)),
+}
+impl Src<'_> {
+    pub fn hist(&self, edges: &[f64], n: u64, seed: u64) -> Hist {
+        match self {
+            Src::Dyn(s) => histogram(*s, edges, n, seed),
+            Src::Fn(f) => histogram_with(*f, edges, n, seed),
+        }
+    }
+}
+
 pub struct LawJob<'a> {
     pub cell: &'a Cell,
-    pub sampler: &'a (dyn Fn(&mut BaseRng, &mut [f64]) + Sync),
+    pub sampler: Src<'a>,
     pub law: &'a RefLaw,
     pub n: u64,
     pub seed: u64,
@@ -480,12 +556,12 @@ pub fn check_law(job: &LawJob) -> LawOutcome {
     let sl = Slack::for_cell(cell, job.law);
     let edges = build_edges(job.law, cell.ft, float_out);
     let eb: Vec<EdgeB> = edges.iter().map(|&x| edge_bounds(job.law, &sl, x)).collect();
-    let h = histogram_with(job.sampler, &edges, job.n, job.seed);
+    let h = job.sampler.hist(&edges, job.n, job.seed);
     let opts = TestOpts::default();
     let first = run_tests(&eb, &h, &opts);
     let mut confirmed = vec![];
     if !first.is_empty() {
-        let h2 = histogram_with(job.sampler, &edges, job.n * 4, hseed(&[job.seed, 0xC0F1]));
+        let h2 = job.sampler.hist(&edges, job.n * 4, hseed(&[job.seed, 0xC0F1]));
         let second = run_tests(&eb, &h2, &opts);
         for r in &second {
             if first.iter().any(|f| f.same_stat(r)) {
